@@ -191,6 +191,8 @@ def run(rep: Report, prog: Program, tier: str) -> None:
         rep.fail("R19.2", "_classify|code-source", f"_classify reads the numeric code from {show(codeterm)}; documented: err.status or err.code", where=fi.where(), function=q)
     def global_dict(t):
         """('global', 'mod:NAME') bound to a dict literal of constants -> python dict of terms"""
+        if isinstance(t, tuple) and t and t[0] == "dict" and all(k[0] == "const" for k, _v in t[1]):
+            return {k[1]: v for k, v in t[1]}  # the engine already evaluated the module constant
         if not (isinstance(t, tuple) and t[0] == "global" and ":" in t[1]):
             return None
         mod, name = t[1].split(":", 1)
@@ -237,7 +239,7 @@ def run(rep: Report, prog: Program, tier: str) -> None:
                         if k in d and type(k) is not bool:
                             return d[k]
                         return evaluate(t[2][2], leaf) if len(t[2]) > 2 else None
-                if t[0] == "cmp" and t[1] == "in" and t[3][0] == "global":
+                if t[0] == "cmp" and t[1] == "in" and t[3][0] in ("global", "dict"):
                     d = global_dict(t[3])
                     if d is not None:
                         return evaluate(t[2], leaf) in d
@@ -308,6 +310,14 @@ def run(rep: Report, prog: Program, tier: str) -> None:
                 return code
             if t[0] == "cmp" and t[1] == "<":
                 return evaluate(t[2], leaf) < evaluate(t[3], leaf)
+            if t[0] == "pure" and t[1] == ".get" and len(t[2]) >= 2:
+                # the status table written as data: a lookup in a constant dict
+                d = global_dict(t[2][0])
+                if d is not None:
+                    k = evaluate(t[2][1], leaf)
+                    if type(k) is not bool and k in d:
+                        return d[k]
+                    return evaluate(t[2][2], leaf) if len(t[2]) > 2 else None
             raise CannotEval()
 
         fp = []
@@ -332,6 +342,11 @@ def run(rep: Report, prog: Program, tier: str) -> None:
                     rv = rv[2] if truth(rv[1], leaf) else rv[3]
                 except CannotEval:
                     pass
+            if rv is not None and rv[0] == "pure" and rv[1] == ".get":
+                try:
+                    rv = leaf(rv)
+                except CannotEval:
+                    pass
             got.append(result_class(rv))
         got = sorted(set(map(str, got)))
         want = "@default_classifier" if code is None else code_class_http(code)
@@ -343,13 +358,26 @@ def run(rep: Report, prog: Program, tier: str) -> None:
     # _coerce_status: attribute order and the args window
     q = "redress.extras.http:_coerce_status"
     fi = prog.func(q)
-    attrs = [ast.literal_eval(n.iter) for n in prog._own_nodes(fi.node) if isinstance(n, ast.For) and isinstance(n.iter, ast.Tuple) and all(isinstance(x, ast.Constant) for x in n.iter.elts)]
+    def folded(e: ast.AST, m=fi.module) -> ast.AST:
+        """the expression with names of module-level literal constants (hoisted out of the function) spelled out"""
+        import copy
+
+        class F(ast.NodeTransformer):
+            def visit_Name(self, n: ast.Name) -> ast.AST:
+                v = m.assigns.get(n.id) if isinstance(n.ctx, ast.Load) else None
+                if isinstance(v, ast.Constant) or (isinstance(v, ast.Tuple) and all(isinstance(x, ast.Constant) for x in v.elts)):
+                    return ast.copy_location(copy.deepcopy(v), n)
+                return n
+
+        return F().visit(copy.deepcopy(e))
+
+    attrs = [ast.literal_eval(folded(n.iter)) for n in prog._own_nodes(fi.node) if isinstance(n, ast.For) and isinstance(folded(n.iter), ast.Tuple) and all(isinstance(x, ast.Constant) for x in folded(n.iter).elts)]
     rep.instance("R19.3", "_coerce_status|attributes", {"order": attrs})
     if attrs and tuple(attrs[0]) == ("status", "status_code", "code"):
         rep.ok("R19.3")
     else:
         rep.fail("R19.3", "_coerce_status|attributes", f"_coerce_status looks at {attrs}; documented: status, status_code, code", where=fi.where(), function=q)
-    win = [ast.unparse(n) for n in ast.walk(fi.node) if isinstance(n, ast.Compare) and len(n.ops) == 2]
+    win = [ast.unparse(folded(n)) for n in ast.walk(fi.node) if isinstance(n, ast.Compare) and len(n.ops) == 2]
     rep.instance("R19.3", "_coerce_status|args-window", {"window": win})
     if any(w.replace(" ", "") == "100<=arg<=599" for w in win):
         rep.ok("R19.3")
@@ -527,6 +555,8 @@ def run(rep: Report, prog: Program, tier: str) -> None:
 
 def table_of_classes(prog: Program, fi, t) -> bool:
     """a value looked up (and tested not None on this path) in a module-level dict whose values are all ErrorClass members"""
+    if isinstance(t, tuple) and t[0] == "pure" and t[1] == ".get" and t[2] and t[2][0][0] == "dict":
+        return bool(t[2][0][1]) and all(v[0] == "enum" and v[1] == "ErrorClass" for _k, v in t[2][0][1])
     if not (isinstance(t, tuple) and t[0] == "pure" and t[1] == ".get" and t[2] and t[2][0][0] == "global" and ":" in t[2][0][1]):
         return False
     mod, name = t[2][0][1].split(":", 1)
